@@ -8,5 +8,7 @@ NoV == {}
 AllVariants == << <<"none", TRUE>>, <<"none", FALSE>>, <<"yes", TRUE>>, <<"yes", FALSE>>, <<"no", TRUE>>, <<"no", FALSE>> >>
 QuickVariants == << <<"none", TRUE>>, <<"yes", FALSE>>, <<"no", TRUE>> >>
 AllVSels == {"none", "same", "less", "more"}
+SlimVSels == {"none"}
+SlimVariants == << <<"none", FALSE>> >>
 QuickVSels == {"none", "same", "less"}
 =============================================================================
